@@ -3,7 +3,7 @@
    statement was false ([flags] text); with the repairs mirrored in the model the former witnesses are fixed points after one
    pass.  No general proof exists.  Proved: the instances, and that the second pass never panics either. *)
 Require Import Bebop.front.Tok Bebop.front.Parse Bebop.front.Fmt Bebop.front.FmtFacts Bebop.front.FmtSafe.
-Require Import Bebop.front.LexInv Bebop.front.ParseInv Bebop.front.FmtInv Bebop.front.MsgInv Bebop.front.GenInv Bebop.front.Items Bebop.front.TyInv Bebop.front.TyMsg Bebop.front.TyItems Bebop.front.Schema.
+Require Import Bebop.front.LexInv Bebop.front.ParseInv Bebop.front.FmtInv Bebop.front.MsgInv Bebop.front.GenInv Bebop.front.Items Bebop.front.TyInv Bebop.front.TyMsg Bebop.front.TyItems Bebop.front.TyUnion Bebop.front.TyUnionItem Bebop.front.Schema.
 From Coq Require Import List.
 
 Definition C17_partial_statement : Prop :=
@@ -45,7 +45,7 @@ Qed.
 Print Assumptions C17_records.
 
 (* and with enums and container types, through the item framework (front/GenInv.v, front/Items.v, front/TyItems.v, front/Schema.v):
-   any sequence of struct, readonly struct, message and enum definitions, field types identifiers, array[T], map[K, V] and T[]
+   any sequence of struct, readonly struct, message, enum and union definitions (union branches structs or messages, front/TyUnion.v), field types identifiers, array[T], map[K, V] and T[]
    nested to any depth (front/TyInv.v: format_type on the tokens of a type expression), every layout *)
 Definition C17_schema_statement : Prop :=
   forall dl lay tail,
